@@ -8,17 +8,15 @@ Open Scope string_scope.
 Open Scope list_scope.
 Open Scope Z_scope.
 
-Definition last_name (p : path) : string := match rev p with n :: _ => pn_name n | [] => "" end.
-
-(** any session of the area whose [sessionAttributes] has a bit of [mask] *)
+(** some session of the area has a bit of [mask] set in its field [attr] (sessionAttributes) *)
 Definition sess_bit (attr : string) (mask : Z) (sessions : list sv) : bool :=
   existsb (fun s => match s with
                     | SNode _ _ kids =>
-                        existsb (fun k => match k with
-                                          | SPrim pa _ z => String.eqb (last_name pa) attr && negb (Z.land z mask =? 0)
-                                          | _ => false
-                                          end) kids
-                    | _ => false
+                        match lookupS attr (map kid_info kids) with
+                        | Some (Some (_, z)) => negb (Z.land z mask =? 0)
+                        | _ => false
+                        end
+                    | SPrim _ _ _ => false
                     end) sessions.
 
 Section SpecMsg.
@@ -33,10 +31,10 @@ Section SpecMsg.
     match sp_prim (p_cmd_tag T) (pchild pa "tag") bs with
     | Some (tagv, tag, r1) =>
     match sp_prim (p_size32 T) (pchild pa "commandSize") r1 with
-    | Some (szv, total, _) =>
-    match split_at total bs with
-    | Some (region, rest) =>
-    let body := skipn (Z.to_nat (pwidth (p_cmd_tag T) + pwidth (p_size32 T))) region in
+    | Some (szv, total, r2) =>
+    (* commandSize counts the whole message: after the two header fields come total - header bytes, then the next message *)
+    match split_at (total - (pwidth (p_cmd_tag T) + pwidth (p_size32 T))) r2 with
+    | Some (body, rest) =>
     match sp_prim (p_cc T) (pchild pa "commandCode") body with
     | Some (ccv, cc, r3) =>
     match lookupZ cc (cmd_handles T), lookupZ cc (cmd_params T) with
@@ -89,10 +87,9 @@ Section SpecMsg.
     match sp_prim (p_rsp_tag T) (pchild pa "tag") bs with
     | Some (tagv, tag, r1) =>
     match sp_prim (p_size32 T) (pchild pa "responseSize") r1 with
-    | Some (szv, total, _) =>
-    match split_at total bs with
-    | Some (region, rest) =>
-    let body := skipn (Z.to_nat (pwidth (p_rsp_tag T) + pwidth (p_size32 T))) region in
+    | Some (szv, total, r2) =>
+    match split_at (total - (pwidth (p_rsp_tag T) + pwidth (p_size32 T))) r2 with
+    | Some (body, rest) =>
     match sp_prim (p_rc T) (pchild pa "responseCode") body with
     | Some (rcv, rc, r3) =>
         if negb (rc =? rc_success T) then
